@@ -18,6 +18,23 @@ let do_registry toks =
   let vs = ref [] and fs = ref [] and sv = ref [] and sf = ref [] in
   let names_ok = ref true in
   L.iteri (fun i op ->
+    if Str_.length op > 2 && Str_.sub op 0 2 = "t:" then begin
+      let hs = L.mapi (fun j h ->
+          match split ';' h with
+          | [k; n; r] ->
+            let name = bytes_of_hex n in
+            if not (C13.at_free name) then names_ok := false;
+            { Registry.h_id = n_of_int (1000 + 16 * i + j);
+              h_kind = (if k = "m" then Registry.KMod else Registry.KSub); h_name = name;
+              h_revs = (if r = "-" then [] else L.map c13_rev (split ',' r)) }
+          | _ -> failwith "bad-case") (split '+' (Str_.sub op 2 (Str_.length op - 2))) in
+      let (st', ok) = Registry.parse_text !st hs in
+      st := st';
+      vs := b01 ok :: !vs;
+      let sok = C13.text_ok !prev hs in
+      sv := b01 sok :: !sv;
+      if sok then prev := !prev @ hs
+    end else
     match split ':' op with
     | [o; k; n; r] ->
       let kind = if k = "m" then Registry.KMod else Registry.KSub in
